@@ -12,7 +12,7 @@
 (*   DEFINE kinds: "gt" c | "lt" c | "up" (v > PREV(v)) | "down" | "true"    *)
 (*                 | "up2" (v > PREV(v, 2)) | "down2"                         *)
 (***************************************************************************)
-EXTENDS SV, Json, IOUtils
+EXTENDS SV, Json, IOUtils, FiniteSets
 CONSTANT Dev
 Trace == ndJsonDeserialize(IOEnv.TRACE_FILE)
 VARIABLES l, cfg, evs, got, dead
@@ -45,19 +45,22 @@ Holds(v, ix, i, st) ==
 
 \* Ends(p, ix, i): positions j (exclusive end) such that ix[i..j-1] matches p
 \* (st = first row of the match: DEFINE conditions with running aggregates depend on it)
-RECURSIVE Ends(_, _, _, _), SeqEnds(_, _, _, _, _), Rep(_, _, _, _, _, _)
-Ends(p, ix, i, st) ==
-  CASE p.t = "var" -> IF i <= Len(ix) /\ Holds(p.v, ix, i, st) THEN {i + 1} ELSE {}
-    [] p.t = "seq" -> SeqEnds(p.ps, ix, {i}, 1, st)
-    [] p.t = "alt" -> UNION {Ends(p.ps[k], ix, i, st) : k \in 1..Len(p.ps)}
-    [] p.t = "q"   -> Rep(p, ix, {i}, 0, IF p.lo = 0 THEN {i} ELSE {}, st)
-SeqEnds(ps, ix, S, k, st) == IF k > Len(ps) THEN S ELSE SeqEnds(ps, ix, UNION {Ends(ps[k], ix, x, st) : x \in S}, k + 1, st)
+\* lab = <<>>: any classification; otherwise lab[i] is the variable row i of the partition must be classified as (ALL ROWS PER MATCH
+\* with CLASSIFIER(): the reported classification itself must spell a word of the pattern, every row satisfying ITS variable's DEFINE)
+NoLab == <<>>
+RECURSIVE Ends(_, _, _, _, _), SeqEnds(_, _, _, _, _, _), Rep(_, _, _, _, _, _, _)
+Ends(p, ix, i, st, lab) ==
+  CASE p.t = "var" -> IF i <= Len(ix) /\ (lab = NoLab \/ (i \in DOMAIN lab /\ lab[i] = p.v)) /\ Holds(p.v, ix, i, st) THEN {i + 1} ELSE {}
+    [] p.t = "seq" -> SeqEnds(p.ps, ix, {i}, 1, st, lab)
+    [] p.t = "alt" -> UNION {Ends(p.ps[k], ix, i, st, lab) : k \in 1..Len(p.ps)}
+    [] p.t = "q"   -> Rep(p, ix, {i}, 0, IF p.lo = 0 THEN {i} ELSE {}, st, lab)
+SeqEnds(ps, ix, S, k, st, lab) == IF k > Len(ps) THEN S ELSE SeqEnds(ps, ix, UNION {Ends(ps[k], ix, x, st, lab) : x \in S}, k + 1, st, lab)
 \* c repetitions done, reaching positions S; acc = ends collected for counts within [lo, hi]
-Rep(p, ix, S, c, acc, st) ==
+Rep(p, ix, S, c, acc, st, lab) ==
   IF S = {} \/ (p.hi # -1 /\ c >= p.hi) \/ c > Len(ix) THEN acc
-  ELSE LET S1 == UNION {{y \in Ends(p.p, ix, x, st) : y > x} : x \in S} IN      \* progress required: no empty iterations
-       Rep(p, ix, S1, c + 1, IF c + 1 >= p.lo THEN acc \cup S1 ELSE acc, st)
-Longest(ix, i) == LET E == {j \in Ends(cfg.pat, ix, i, i) : j > i} IN IF E = {} THEN 0 ELSE CHOOSE j \in E : \A k \in E : k <= j
+  ELSE LET S1 == UNION {{y \in Ends(p.p, ix, x, st, lab) : y > x} : x \in S} IN      \* progress required: no empty iterations
+       Rep(p, ix, S1, c + 1, IF c + 1 >= p.lo THEN acc \cup S1 ELSE acc, st, lab)
+Longest(ix, i) == LET E == {j \in Ends(cfg.pat, ix, i, i, NoLab) : j > i} IN IF E = {} THEN 0 ELSE CHOOSE j \in E : \A k \in E : k <= j
 
 \* left-to-right scan with the AFTER MATCH SKIP rule: sequence of <<first, last>> (positions in the partition)
 RECURSIVE Scan(_, _)
@@ -88,6 +91,38 @@ QuiesceCode == LET bad == {k \in Parts : PartCode(k) # ""} IN
                IF \E i \in 1..Len(got) : (IF cfg.part = "" THEN <<"all">> ELSE KeyOf(Col(got[i], cfg.part))) \notin Parts THEN "match_for_unknown_partition"
                ELSE IF bad = {} THEN "" ELSE PartCode(CHOOSE k \in bad : TRUE)
 
+\* ---- ALL ROWS PER MATCH (cfg.allrows = 1): one delivery = one match, one result row per event, with id, CLASSIFIER() AS cls,
+\* MATCH_NUMBER() AS mn and (cfg.cntvar) the running COUNT(<var>.v) AS nb
+AllRows == "allrows" \in DOMAIN cfg /\ cfg.allrows = 1
+IdOf(r) == r.id.v \div Scale
+LabelCode(rows) ==
+  LET n == Len(rows)
+      k == IF cfg.part = "" THEN <<"all">> ELSE KeyOf(Col(rows[1], cfg.part))
+      ix == PIdx(k)
+      posS(j) == {i \in 1..Len(ix) : ix[i] = IdOf(rows[j])} IN
+  IF \E j \in 1..n : "cls" \notin DOMAIN rows[j] \/ rows[j].cls.k # "str" \/ "id" \notin DOMAIN rows[j] \/ rows[j].id.k # "num" THEN "classifier_or_id_missing"
+  ELSE IF \E j \in 1..n : posS(j) = {} THEN "row_of_another_partition_in_match"
+  ELSE LET pos(j) == CHOOSE i \in posS(j) : TRUE
+           st == pos(1)
+           lab == [i \in st..(st + n - 1) |-> rows[i - st + 1].cls.v] IN
+       IF \E j \in 1..(n - 1) : pos(j + 1) # pos(j) + 1 THEN "match_rows_not_consecutive"
+       ELSE IF (st + n) \notin Ends(cfg.pat, ix, st, st, lab) THEN "classification_is_no_word_of_the_pattern_or_breaks_its_define"
+       ELSE IF \E j \in 1..n : "mn" \notin DOMAIN rows[j] \/ ~Same(rows[j].mn, rows[1].mn) THEN "match_number_differs_within_match"
+       ELSE IF "cntvar" \in DOMAIN cfg /\ \E j \in 1..n : "nb" \notin DOMAIN rows[j] \/
+               ~SameNum(rows[j].nb, NumV(Scale * Cardinality({m \in 1..j : rows[m].cls.v = cfg.cntvar /\ Col(evs[IdOf(rows[m])], "v").k = "num"})), 0)
+            THEN "running_count_of_a_variable_wrong"
+       ELSE ""
+\* one delivery may hold several matches one after the other (the flush at Stop): a match = a maximal run of rows with one
+\* partition key and one MATCH_NUMBER
+SameM(a, b) == PKey(a) = PKey(b) /\ "mn" \in DOMAIN a /\ "mn" \in DOMAIN b /\ Same(a.mn, b.mn)
+RECURSIVE Segs(_)
+Segs(rows) ==
+  IF rows = <<>> THEN <<>>
+  ELSE LET k == CHOOSE m \in 1..Len(rows) : (\A j \in 1..m : SameM(rows[1], rows[j])) /\ (m = Len(rows) \/ ~SameM(rows[1], rows[m + 1])) IN
+       <<SubSeq(rows, 1, k)>> \o Segs(SubSeq(rows, k + 1, Len(rows)))
+Summary(rows) == LET base == [f |-> rows[1].id, l |-> rows[Len(rows)].id, n |-> NumV(Len(rows) * Scale), mn |-> rows[1].mn] IN
+                 IF cfg.part = "" THEN base ELSE (cfg.part :> Col(rows[1], cfg.part)) @@ base
+
 Reject(code) == /\ PrintT(<<"REJECT", cfg.tr, l, code>>) /\ dead' = TRUE
 Init == l = 1 /\ cfg = [tr |-> -1] /\ evs = <<>> /\ got = <<>> /\ dead = FALSE
 Next ==
@@ -96,6 +131,12 @@ Next ==
      IF e.e = "reset" THEN cfg' = e /\ evs' = <<>> /\ got' = <<>> /\ dead' = FALSE
      ELSE IF dead THEN UNCHANGED <<cfg, evs, got, dead>>
      ELSE IF e.e = "in" THEN evs' = Append(evs, e.row) /\ UNCHANGED <<cfg, got, dead>>
+     ELSE IF e.e = "out" /\ AllRows THEN
+        LET sg == Segs(e.rows)
+            bad == {i \in 1..Len(sg) : LabelCode(sg[i]) # ""} IN
+        IF Len(e.rows) = 0 THEN Reject("empty_match") /\ UNCHANGED <<cfg, evs, got>>
+        ELSE IF bad = {} THEN got' = got \o [i \in 1..Len(sg) |-> Summary(sg[i])] /\ UNCHANGED <<cfg, evs, dead>>
+        ELSE Reject(LabelCode(sg[CHOOSE i \in bad : TRUE])) /\ UNCHANGED <<cfg, evs, got>>
      ELSE IF e.e = "out" THEN got' = got \o e.rows /\ UNCHANGED <<cfg, evs, dead>>
      ELSE IF e.e = "quiesce" THEN
         /\ IF QuiesceCode = "" THEN UNCHANGED dead ELSE Reject(QuiesceCode)
